@@ -19,6 +19,8 @@ package rm
 
 import (
 	"fmt"
+	"sort"
+	"strings"
 	"sync"
 
 	"github.com/pkg/errors"
@@ -115,15 +117,45 @@ func (r *RMRemoting) LockQuery(param LockQueryParam) (bool, error) {
 	return false, nil
 }
 
-func (r *RMRemoting) RegisterResource(resource Resource) error {
-	req := message.RegisterRMRequest{
+func newRegisterRMRequest(resourceIds string) message.RegisterRMRequest {
+	return message.RegisterRMRequest{
 		AbstractIdentifyRequest: message.AbstractIdentifyRequest{
 			Version:                 "1.5.2",
 			ApplicationId:           rmConfig.ApplicationID,
 			TransactionServiceGroup: rmConfig.TxServiceGroup,
 		},
-		ResourceIds: resource.GetResourceId(),
+		ResourceIds: resourceIds,
 	}
+}
+
+// registeredResourceRequests builds, for every resource manager that holds
+// resources, the RegisterRMRequest announcing all of them (ids joined by ",");
+// it is what a newly opened session has to be told
+func registeredResourceRequests() []interface{} {
+	var requests []interface{}
+	GetRmCacheInstance().resourceManagerMap.Range(func(_, value interface{}) bool {
+		resources := value.(ResourceManager).GetCachedResources()
+		if resources == nil {
+			return true
+		}
+		var ids []string
+		resources.Range(func(_, resource interface{}) bool {
+			if r, ok := resource.(Resource); ok {
+				ids = append(ids, r.GetResourceId())
+			}
+			return true
+		})
+		if len(ids) > 0 {
+			sort.Strings(ids)
+			requests = append(requests, newRegisterRMRequest(strings.Join(ids, ",")))
+		}
+		return true
+	})
+	return requests
+}
+
+func (r *RMRemoting) RegisterResource(resource Resource) error {
+	req := newRegisterRMRequest(resource.GetResourceId())
 	res, err := getty.GetGettyRemotingClient().SendSyncRequest(req)
 	if err != nil {
 		log.Errorf("RegisterResourceManager error: {%#v}", err.Error())
